@@ -817,8 +817,9 @@ class DictType(Type):
                         self.element_types[candidate[0]] = candidate[1:]
                 self.element_types.append((key, value_type))
             else:
-                self.element_types[candidate[0]] = (widen_type(key, candidate[1]),
-                                                    widen_type(value_type, candidate[2]))
+                # widen_type answers None for unrelated types: keep the key, take the new value's type
+                self.element_types[candidate[0]] = (widen_type(key, candidate[1]) or candidate[1],
+                                                    widen_type(value_type, candidate[2]) or value_type)
 
     def as_type(self, tifa=None, location=None):
         return DictType([(k.as_type(tifa, location), v.as_type(tifa, location))
